@@ -837,6 +837,13 @@ func c19Variants() []c19Variant {
 	return out
 }
 
+// c19InflightClear empties a slot of the in-flight file of xfInChild.
+func c19InflightClear(slot int) {
+	if xfInflightFile != nil && slot >= 0 && slot < xfSlots {
+		xfInflightFile.WriteAt(make([]byte, xfSlotSize), int64(slot)*xfSlotSize)
+	}
+}
+
 // c19Sink buffers what a session writes to lib.Result, so that the variants of one configuration can run side
 // by side and still be reported in a fixed order, and collects the observations to compare with the model.
 type c19Sink struct {
@@ -897,7 +904,7 @@ func c19Handshake(r *c19Sink, v c19Variant, cfg []string, data map[string]string
 	return se, in, true
 }
 
-func c19Server(c *lib.Ctx, scratch string) {
+func c19Server(c *lib.Ctx, scratch string, sideBySide bool) {
 	r := c.R
 	thorough := c.Tier == "thorough"
 	supported := sftp.VerifSupportedExtensions()
@@ -939,6 +946,11 @@ func c19Server(c *lib.Ctx, scratch string) {
 		return lib.Hex(b)
 	}
 	workers := 8
+	if !sideBySide {
+		// a process serving several sessions at once died (c19_sess.go): this process serves its sessions one after the other
+		workers = 1
+		r.Note("a process serving several sessions side by side died (see the sessions/process-died failure): the sessions of the server section run one after the other in this process")
+	}
 
 	for ci, cfg := range configs {
 		if err := sftp.SetSFTPExtensions(cfg...); err != nil {
@@ -972,6 +984,8 @@ func c19Server(c *lib.Ctx, scratch string) {
 				rawBytes := func() string { return rawBytesOf(rnd) }
 				initBody := inits[(ci+vi)%len(inits)]
 				se, in, ok := c19Handshake(r, v, cfg, data, initBody, scratch, true)
+				xfInflight(vi%xfSlots, in) // if the process dies, the sessions being served are in the report (xfInChild)
+				defer c19InflightClear(vi % xfSlots)
 				r.Case(fmt.Sprintf("handshake %s %v %v cfg=%v init=%x", v.kind, v.opts, v.ifaces, cfg, initBody), true)
 				r.Hist("server-handshake-" + v.kind)
 				if !ok {
